@@ -42,6 +42,10 @@ type side struct {
 
 func runSide(w *wk.Client, name, src string) side {
 	o := w.Do("run", wk.Src{Name: name, Src: src})
+	if o.Kind == wk.Exited && !strings.Contains(o.Output, ".go:") {
+		// resource exhaustion of a long-lived worker, not a crash at a source location: retry in a fresh process
+		o = w.Do("run", wk.Src{Name: name, Src: src})
+	}
 	var rr wk.RunResult
 	o.Decode(&rr)
 	switch o.Kind {
